@@ -179,7 +179,7 @@ def _build(d):
         # and the tree rendered once, then re-parented / re-ordered / slots swapped; the model only sees d["spec"]
         import bigtree
         if d.get("binary"):
-            root, objs = core.build_binary_tree(h["init"])
+            root, objs = core.build_binary_tree(h["init"], cls=H.hooked_bin())
             _fs, order = H.bstruct_final(h["init"], h["edits"])
             apply = H.bapply_real
         else:
